@@ -636,6 +636,7 @@ func (g *Gen) instr(in ssa.Instruction) {
 	case *ssa.Store:
 		l := g.locOf(in.Addr)
 		g.nilCheck(l, in.Pos())
+		g.storeClauses(in)
 		g.store(l, g.val(in.Val))
 	case *ssa.UnOp:
 		g.unop(in)
@@ -1316,4 +1317,69 @@ func (g *Gen) ret(in *ssa.Return) {
 	}
 	g.curRet = in
 	g.checkPost(res, in.Pos())
+}
+
+// storeClauses: `at store T.f assert [label] expr` — an obligation at every store this function
+// makes to field f of a T (evaluated before the store; `value` is what is being stored). It pins
+// down WHAT a function may write to a field without needing any frame knowledge about the calls
+// in between.
+func (g *Gen) storeClauses(in *ssa.Store) {
+	if g.fc == nil || g.pass != 2 || g.inlineDepth != 0 {
+		return
+	}
+	fa, ok := in.Addr.(*ssa.FieldAddr)
+	if !ok {
+		return
+	}
+	st := derefType(fa.X.Type())
+	su, ok := st.Underlying().(*types.Struct)
+	if !ok {
+		return
+	}
+	named, ok := types.Unalias(st).(*types.Named)
+	if !ok {
+		return
+	}
+	key := named.Obj().Name() + "." + su.Field(fa.Field).Name()
+	for _, cl := range g.fc.Clauses {
+		if cl.Kind != "storeassert" || cl.Call != key {
+			continue
+		}
+		g.usedAxioms[fmtf("clausehit:%p", cl)] = true
+		g.callOrd["store:"+key+":"+cl.Label]++
+		env := g.pointEnv(g.st, g.cur, nil)
+		env.vars["value"] = TV{g.val(in.Val), in.Val.Type()}
+		env.vars["target"] = TV{g.val(fa.X), fa.X.Type()}
+		t, err := evalLenientOr(env, cl.E)
+		if err != nil {
+			g.errorf("%s: at store %s: %v", g.fnLabel(), key, err)
+			continue
+		}
+		name := fmtf("%s/store@%s#%d.%s", g.fnLabel(), key, g.callOrd["store:"+key+":"+cl.Label], cl.Label)
+		g.oblige("assert", name, t, cl.Props, cl.Text, in.Pos())
+	}
+}
+
+// evalLenientOr evaluates a disjunction; a disjunct that names a variable which does not exist
+// (yet) at this point cannot be the reason the clause holds here, so it counts as false.
+func evalLenientOr(env *Env, e Expr) (string, error) {
+	if b, ok := e.(*EBin); ok && b.Op == "||" {
+		l, err := evalLenientOr(env, b.L)
+		if err != nil {
+			return "", err
+		}
+		r, err := evalLenientOr(env, b.R)
+		if err != nil {
+			return "", err
+		}
+		return or(l, r), nil
+	}
+	t, err := env.evalBool(e)
+	if err != nil {
+		if strings.Contains(err.Error(), "unknown name") {
+			return "false", nil
+		}
+		return "", err
+	}
+	return t, nil
 }
